@@ -185,6 +185,23 @@ def run(tier, seed, replay=None):
         st_l = b"".join(struct.pack("<hh", int(amp * math.sin(i * 0.05)), 0) for i in range(nsamp))
         st_r = b"".join(struct.pack("<hh", 0, int(amp * math.sin(i * 0.05))) for i in range(nsamp))
         al += ["adpcm 40 " + C.hexs(mono), "adpcm 80 " + C.hexs(st_l), "adpcm 80 " + C.hexs(st_r)]
+    # jumps: a level change larger than twice the current step makes the encoder emit step markers (odd and even runs of them);
+    # the other channel holds a constant level, so samples ending up in the wrong channel show as an error of about the jump
+    for A in ([1500, 5000, 12000, 20000, 30000, -25000] if big else [1500, 12000, 30000, -25000]):
+        for pos in ((10, 33, 100) if big else (10, 33)):
+            for other in (0, 7000, -3000):
+                n = 300
+                L = [0 if i < pos else A for i in range(n)]
+                al.append("adpcm 80 " + C.hexs(b"".join(struct.pack("<hh", x, other) for x in L)))
+                al.append("adpcm 80 " + C.hexs(b"".join(struct.pack("<hh", other, x) for x in L)))
+                al.append("adpcm 40 " + C.hexs(b"".join(struct.pack("<h", x) for x in L)))
+    stair = set()                               # jumps of up to 60000: the error right after a jump reaches 2046 over 1200 such signals on the unchanged tree; limit 6000
+    for k in range(24 if big else 8):          # random staircases on both channels
+        lv = [[r.randrange(-30000, 30000) for _ in range(8)] for _ in (0, 1)]
+        cut = [sorted(r.sample(range(1, 300), 7)) for _ in (0, 1)]
+        lev = lambda c, i: lv[c][sum(1 for x in cut[c] if x <= i)]
+        al.append("adpcm 80 " + C.hexs(b"".join(struct.pack("<hh", lev(0, i), lev(1, i)) for i in range(300))))
+        stair.add(al[-1])
     ao = C.run_lines(ib, al)
     for l, o in zip(al, ao):
         res.case("a" + C.hashlib.sha1(l.encode()).hexdigest())
@@ -193,7 +210,7 @@ def run(tier, seed, replay=None):
             continue
         if t[0] != "LEN-OK":
             res.failing.append(("adpcm-length", "ADPCM selector does not preserve length: " + o[:100], {"case": l[:200], "result": o}))
-        elif l.startswith("adpcm 80") and (int(t[1]) > 2500 or int(t[2]) > 2500):
+        elif l.startswith("adpcm 80") and (int(t[1]) > (6000 if l in stair else 2500) or int(t[2]) > (6000 if l in stair else 2500)):
             res.failing.append(("adpcm-interleaving", "ADPCM stereo does not keep the channels apart (max error L=%s R=%s)" % (t[1], t[2]), {"case": l[:200], "result": o}))
     res.sample({"case": al[1][:80], "result": ao[1]})
     res.sample({"case": vl[100], "impl": iv[100], "model": mv[100]})
